@@ -26,6 +26,7 @@ import (
 	"github.com/mycoria/mycoria/mgr"
 	"github.com/mycoria/mycoria/peering"
 	"github.com/mycoria/mycoria/router"
+	"github.com/mycoria/mycoria/state"
 
 	"verifharness/core"
 	"verifharness/env"
@@ -84,6 +85,19 @@ func (a *attacker) sealed(mt frame.MessageType, dst netip.Addr, sw, msg, apx []b
 	if mt.Class() == frame.MessageClassUnknown {
 		// cannot be sealed: send as is
 	} else if dst == a.vIP && sess != nil {
+		if mt.IsEncrypted() && a.r.IntN(5) == 0 {
+			// the peer holds the keys: it chooses its sequence numbers as it likes - at and around the ends of the
+			// number space, backwards, far ahead (the counters sit in its own session object)
+			hp := &state.EncryptionSessionTestHelper{EncryptionSession: sess.Encryption()}
+			vals := []uint32{0, 1, 2, 255, 256, 0x7fffffff, 0x80000000, 0xfffffeff, 0xffffff00, 0xffffff01, 0xfffffffe, 0xffffffff, a.r.Uint32()}
+			v := vals[a.r.IntN(len(vals))]
+			if a.r.IntN(2) == 0 {
+				hp.PrioSetOut(v)
+			} else {
+				hp.ReglSetOut(v)
+			}
+			op += "+sequence-preset"
+		}
 		if err := f.Seal(sess); err != nil {
 			return hostile{}, false
 		}
@@ -634,6 +648,7 @@ func syncVictim(res *core.Result, r *rand.Rand, nFrames int) {
 	}
 	V := ms.Nodes[0]
 	handlers := map[string]int{}
+	var recent []string
 	for i := 0; i < nFrames; i++ {
 		h, ok := att.next()
 		if !ok {
@@ -644,7 +659,29 @@ func syncVictim(res *core.Result, r *rand.Rand, nFrames int) {
 			via = 2 // arrives over another link
 		}
 		p := &vmesh.Packet{From: via, To: 0, Data: h.data}
-		resu := ms.DeliverOn(p, 0, via)
+		var resu vmesh.Result
+		// the handler runs on another goroutine so that one that never returns is seen as such: no legitimate path
+		// blocks longer than the one-second hand-over to the local interface; 30 s without a process stall is a stall
+		doneCh := core.OnHelper(func() { resu = ms.DeliverOn(p, 0, via) })
+		for waited := false; ; {
+			t0 := time.Now()
+			select {
+			case <-doneCh:
+			case <-time.After(30 * time.Second):
+				if core.StalledSince(t0) && !waited {
+					waited = true
+					continue
+				}
+				res.Violate("worker-stalled:sync:"+strings.SplitN(h.kind, "+", 2)[0], fmt.Sprintf("the victim's handler did not return within 30 s from a frame of an authenticated peer (%s, message type %d, ping type %q); the frames before it: %s", h.kind, h.mtype, h.ptype, strings.Join(recent, ", ")),
+					map[string]any{"operator": h.kind, "frame": fmt.Sprintf("%x", h.data[:min(len(h.data), 600)]), "index": i, "case_id": h.kind})
+				return
+			}
+			break
+		}
+		recent = append(recent, fmt.Sprintf("%s/type %d", h.kind, h.mtype))
+		if len(recent) > 6 {
+			recent = recent[1:]
+		}
 		if len(ms.Panics) > 0 {
 			res.Violate("worker-panic:sync:"+strings.SplitN(h.kind, "+", 2)[0], fmt.Sprintf("a frame from an authenticated peer (%s, message type %d, ping type %q) panicked the victim's worker: %v", h.kind, h.mtype, h.ptype, ms.Panics[0]),
 				map[string]any{"operator": h.kind, "frame": fmt.Sprintf("%x", h.data[:min(len(h.data), 600)]), "frame_len": len(h.data), "index": i, "case_id": h.kind})
